@@ -43,6 +43,13 @@ CHECKS = {
         "on real coordinate projections of random vectors, over random multi-partition models.",
    note="trusted: pv/canon.py and an independent bilinear expansion; growth across re-solves is judged under C13",
    tech="runtime contracts on get_block + reference-set comparison of sent constraints + concrete-projection evaluation"),
+ "C12": dict(cat="exploration", ref="DESIGN 3/C12",
+   text="For pairs (history, B) the canonical dump of everything crossing the wrapper boundary (order, sense, names, counters, "
+        "float.hex coefficients keyed by leaf counters, solver chosen, class counters at PEP() time, null objects) taken first in a "
+        "fresh interpreter is compared bit-for-bit with the dump taken after a random in-process history including failed, abandoned "
+        "(sys.monitoring failpoints), nested and orphan-object histories; results compared at 1e-9.",
+   note="solver assumed deterministic for bit-identical input; histories are sampled",
+   tech="offline checker over recorded wrapper-boundary dumps, fresh-process reference vs fault-injected in-process histories"),
 }
 NOT_YET = {}
 
